@@ -211,10 +211,17 @@ def run(kind, src, nm, nc, idx):
             reset()
             extractions = []
             def obs(o):
+                # every 5th program runs with the cyclic collector switched OFF by the application: the observation must leave it off
+                if idx % 5 == 0: gc.disable()
+                st0 = (gc.isenabled(), sys.gettrace(), sys.getprofile(), sys.getswitchinterval(), sys.getrecursionlimit(), gc.get_threshold())
                 with warnings.catch_warnings(record=True):
                     warnings.simplefilter("always")
                     a = stackscope.extract(o); b = stackscope.extract(o)
+                st1 = (gc.isenabled(), sys.gettrace(), sys.getprofile(), sys.getswitchinterval(), sys.getrecursionlimit(), gc.get_threshold())
+                gc.enable()
                 STATS["points"] += 1
+                if st0 != st1:
+                    fail(src, f"extraction changed process-wide interpreter state (gc enabled, trace, profile, switch interval, recursion limit, gc thresholds): {st0} -> {st1}")
                 if a != b:
                     fail(src, "two extractions of an unchanged target differ")
                 extractions.append(a)
